@@ -48,6 +48,13 @@ impl HistCase {
 }
 
 pub fn hist_strategy(profile: u8, depth: u32, size: u32, max_sched: usize, non_json: bool) -> BoxedStrategy<HistCase> {
+    hist_strategy_dom(profile, depth, size, max_sched, non_json, false)
+}
+
+/// `with_extended`: half of the cases come from the extended stream domain (stream folds in
+/// every shape, nested in folds, guarded recursive appends).  Only properties whose oracle
+/// does not depend on merge completeness use it (C02, C10, C20, C27).
+pub fn hist_strategy_dom(profile: u8, depth: u32, size: u32, max_sched: usize, non_json: bool, with_extended: bool) -> BoxedStrategy<HistCase> {
     (
         sk_strategy(depth, size),
         proptest::collection::vec(any::<u16>(), 0..max_sched),
@@ -55,7 +62,14 @@ pub fn hist_strategy(profile: u8, depth: u32, size: u32, max_sched: usize, non_j
         proptest::collection::vec(any::<u16>(), 4..8),
         any::<bool>(),
     )
-        .prop_map(move |(sk, sched, n_peers, extra, par_only)| HistCase { sk, sched, n_peers, profile, non_json, extra, par_only, rec: false })
+        .prop_map(move |(sk, sched, n_peers, extra, ext)| {
+            // The registered checks search the "clean" stream domain: stream/map folds only in
+            // the par-next shape and not nested in one another.  The classes outside it are
+            // confirmed known findings (K1..K5, DESIGN §14) and are excluded by construction;
+            // VERIF_EXTENDED=1 re-enables them for exploration.
+            let extended = ext && (with_extended || std::env::var("VERIF_EXTENDED").is_ok());
+            HistCase { sk, sched, n_peers, profile, non_json, extra, par_only: !extended, rec: false }
+        })
         .boxed()
 }
 
@@ -228,8 +242,8 @@ impl Property for C02 {
     }
     fn strategy(&self, tier: Tier) -> BoxedStrategy<HistCase> {
         prop_oneof![
-            hist_strategy(2, tier.pick(5, 7), tier.pick(30, 60), 40, false),
-            hist_strategy(1, tier.pick(5, 7), tier.pick(30, 60), 40, false)
+            hist_strategy_dom(2, tier.pick(5, 7), tier.pick(30, 60), 40, false, true),
+            hist_strategy_dom(1, tier.pick(5, 7), tier.pick(30, 60), 40, false, true)
         ]
         .boxed()
     }
@@ -491,6 +505,30 @@ pub fn fold_covered(d: &air_interpreter_data::InterpreterData) -> Vec<bool> {
     cov
 }
 
+/// number of stream-fold regions covering each position
+pub fn fold_depth(d: &air_interpreter_data::InterpreterData) -> Vec<usize> {
+    let n = d.trace.len();
+    let mut depth = vec![0usize; n];
+    for st in d.trace.iter() {
+        if let air_interpreter_data::ExecutedState::Fold(f) = st {
+            for e in &f.lore {
+                for sd in &e.subtraces_desc {
+                    let b = usize::from(sd.begin_pos);
+                    for p in b..(b + sd.subtrace_len as usize).min(n) {
+                        depth[p] += 1;
+                    }
+                }
+            }
+        }
+    }
+    depth
+}
+
+pub fn max_fold_depth_of(d: &air_interpreter_data::InterpreterData, cid: &str) -> usize {
+    let depth = fold_depth(d);
+    d.trace.iter().enumerate().filter(|(_, st)| state_cid(st).as_deref() == Some(cid)).map(|(i, _)| depth[i]).max().unwrap_or(0)
+}
+
 pub fn state_cid(st: &air_interpreter_data::ExecutedState) -> Option<String> {
     use air_interpreter_data::*;
     match st {
@@ -564,7 +602,11 @@ impl Property for C09 {
                         // `next` is not unconditionally executed (DESIGN §14 K1)
                         let d_src = if src == "prev" { &dp.data } else { &dc.data };
                         let in_fold = all_occurrences_in_folds(d_src, &key.1);
-                        let sig = if src == "current" && in_fold && h.script.feat.seq_stream_fold > 0 {
+                        let nested = max_fold_depth_of(d_src, &key.1) >= 2;
+                        let sig = if src == "current" && in_fold && nested && h.script.feat.nested_stream_fold > 0 {
+                            // class K3: nested stream folds over a stream that outer iterations append to
+                            "C09:forgot-current-in-nested-stream-fold".to_string()
+                        } else if src == "current" && in_fold && h.script.feat.seq_stream_fold > 0 {
                             "C09:forgot-current-in-seq-stream-fold".to_string()
                         } else {
                             format!("C09:forgot-{}-{}", src, key.0)
